@@ -23,6 +23,9 @@ def run(ctx: Ctx) -> None:
     t16_losses.run_module_functional(ctx)
     t16_losses.run_module_norm(ctx)
     t16_losses.run_invariances(ctx)
+    with ctx.parallel():  # (each obligation builds its own environment)
+        t16_losses.run_mi_symmetry(ctx)
+    ctx.floor("T16.mi-symmetry", 12)
     ctx.floor("T16.invariance", 2)
     ctx.floor("T16.target-forms", 4)
     ctx.floor("T16.module-norm", 4)
